@@ -1563,7 +1563,10 @@ func (s *ImmuStore) releaseVLog(vLogID byte) error {
 	s.vLogsCond.L.Lock()
 	s.vLogs[vLogID-1].unlockedRef = s.vLogUnlockedList.PushBack(vLogID - 1) // unlocked
 	s.vLogsCond.L.Unlock()
-	s.vLogsCond.Signal()
+	// waiters wait for different value logs (fetchVLog) or for any of them
+	// (fetchAnyVLog): all of them must re-check, a single wake-up may go to
+	// a waiter whose value log is still taken
+	s.vLogsCond.Broadcast()
 
 	return nil
 }
